@@ -190,7 +190,13 @@ pub fn unit_table(tier: Tier) -> Vec<Unit> {
                         if !kind_has_group(tier, kind, group) {
                             continue;
                         }
-                        if group == SUPER_PKG_GROUP {
+                        // thorough: the import forms with shadows are split by
+                        // import kind as well — with Const and all shadows a
+                        // unit of `super.b` in pkg+a+b+a.b met the known defect
+                        // C13-import-order more than 200 times
+                        let split = group == SUPER_PKG_GROUP
+                            || (tier == Tier::Thorough && (1..=FULL_PFORMS).contains(&group));
+                        if split {
                             // nearly every probe of this group meets the known
                             // defect C13-super-scope-walk: smaller units, so
                             // that every violation is kept literally
